@@ -564,6 +564,65 @@ fn oracle(tera: &Tera, c: &Case) -> Option<String> {
     }
 }
 
+/// Integer LITERALS written in the template source at and beyond the i64 boundary: the rendered
+/// text is the exact decimal of the exact result, or the template is refused / the render is an
+/// error — never an inexact (float) answer.  Directed, every seed.
+fn literal_family(report: &mut Report) {
+    let big: Vec<(String, Option<i128>)> = {
+        let mut v: Vec<(String, Option<i128>)> = Vec::new();
+        for n in [0i128, 1, 255, 4294967296, (1 << 53) + 1, i64::MAX as i128 - 1, i64::MAX as i128, i64::MAX as i128 + 1,
+                  i64::MAX as i128 + 2, u64::MAX as i128, u64::MAX as i128 + 1, 10i128.pow(19), 10i128.pow(20),
+                  i128::MAX - 1, i128::MAX] {
+            v.push((n.to_string(), Some(n)));
+        }
+        // beyond i128: no exact integer result exists in the engine, so only an error is right
+        v.push(("170141183460469231731687303715884105728".into(), None)); // 2^127
+        v.push(("340282366920938463463374607431768211456".into(), None)); // 2^128
+        v.push(("1".to_string() + &"0".repeat(40), None));
+        v
+    };
+    let exact = |x: Option<i128>| x.map(|n| n.to_string());
+    let mut check = |src: String, want: Option<String>, report: &mut Report| {
+        report.evaluations += 1;
+        report.oracle_checks += 1;
+        report.count("literal.cases");
+        let got = std::panic::catch_unwind(|| Tera::default().render_str(&src, &Context::new(), false));
+        let bad = match (&got, &want) {
+            (Err(_), _) => Some("panic".to_string()),
+            (Ok(Err(_)), _) => None, // refusing the literal (or the operation) is always allowed
+            (Ok(Ok(text)), Some(w)) if text == w => None,
+            (Ok(Ok(text)), w) => Some(format!("rendered `{text}`, exact result {}", w.clone().unwrap_or_else(|| "does not fit any integer: only an error is right".into()))),
+        };
+        if let Some(d) = bad {
+            report.oracle_failures += 1;
+            report.count("literal.failures");
+            if report.histogram.get("literal.failures").copied().unwrap_or(0) <= 5 {
+                report.violation(
+                    "property",
+                    format!("integer literal in the template source: `{src}` {d}"),
+                    serde_json::json!({"literal_template": src, "expected": want, "rerun": "harness/target/release/c13 --replay <this file>"}),
+                );
+            }
+        }
+    };
+    for (lit, n) in &big {
+        check(format!("{{{{ {lit} }}}}"), exact(*n), report);
+        check(format!("{{{{ {lit} - 1 }}}}"), exact(n.and_then(|x| x.checked_sub(1))), report);
+        check(format!("{{{{ {lit} + 1 }}}}"), exact(n.and_then(|x| x.checked_add(1))), report);
+        check(format!("{{{{ 0 - {lit} }}}}"), exact(n.and_then(|x| 0i128.checked_sub(x))), report);
+        check(format!("{{{{ -{lit} }}}}"), exact(n.and_then(|x| x.checked_neg())), report);
+        check(format!("{{{{ {lit} * 1 }}}}"), exact(*n), report);
+        check(format!("{{{{ {lit} // 1 }}}}"), exact(*n), report);
+        check(format!("{{{{ {lit} % 7 }}}}"), exact(n.map(|x| x.rem_euclid(7))), report);
+        // equality of a literal with its successor must not be true
+        let succ = n.and_then(|x| x.checked_add(1)).map(|x| x.to_string());
+        if let Some(sx) = succ {
+            check(format!("{{{{ {lit} == {sx} }}}}"), Some("false".into()), report);
+            check(format!("{{{{ {lit} < {sx} }}}}"), Some("true".into()), report);
+        }
+    }
+}
+
 fn main() {
     quiet_panics();
     let env = Env::from_env();
@@ -573,6 +632,11 @@ fn main() {
     if let Some(path) = replay_path() {
         let text = std::fs::read_to_string(&path).expect("replay file");
         let j: serde_json::Value = serde_json::from_str(&text).expect("replay json");
+        if let Some(src) = j["literal_template"].as_str() {
+            let got = std::panic::catch_unwind(|| Tera::default().render_str(src, &Context::new(), false));
+            println!("template: {src}\nexpected: {}\nimplementation: {:?}", j["expected"], got.map(|r| r.map_err(|e| e.to_string())));
+            return;
+        }
         let op = j["op"].as_str().unwrap().to_string();
         let a = decode(j["a"].as_str().unwrap()).unwrap();
         let b = j["b"].as_str().and_then(decode);
@@ -581,6 +645,8 @@ fn main() {
         println!("request: {}\nimplementation: {}\noracle: {:?}", c.req, c.imp, oracle(&tera, &c));
         return;
     }
+
+    literal_family(&mut report);
 
     let mut rng = Rng::new(env.seed);
     let ints = int_lattice(!env.quick());
@@ -732,8 +798,8 @@ fn main() {
             .collect();
         hs.into_iter().flat_map(|h| h.join().unwrap()).collect()
     });
-    report.oracle_checks = cases.len() as u64;
-    report.oracle_failures = fails.len() as u64;
+    report.oracle_checks += cases.len() as u64;
+    report.oracle_failures += fails.len() as u64;
 
     let replay_of = |c: &Case, extra: serde_json::Value| {
         serde_json::json!({
